@@ -335,7 +335,14 @@ fn run_case(ctx: &Ctx, w: &World, idx: u64, c: &Case) -> CaseOut {
             let mut names = vec![];
             let struct_names: Vec<String> = cramfmt::STRUCT_VALUES.iter().zip(cramfmt::ENCODING_TEMPLATES).map(|(a, b)| format!("choice: {a} or encoding {b}")).collect();
             let struct_refs: Vec<&str> = struct_names.iter().map(String::as_str).collect();
-            let value_names: &[&str] = if *layer == Layer::CramStruct { &struct_refs } else { &SUBST_NAMES };
+            // one slot per type nibble (the matrix has 48 slots): which % 6
+            let bcf_names: Vec<String> = mutate::BCF_TYPES.iter().map(|t| format!("descriptor: length {{0,1,2,15}} x type {t}")).collect();
+            let bcf_refs: Vec<&str> = bcf_names.iter().map(String::as_str).collect();
+            let value_names: &[&str] = match *layer {
+                Layer::CramStruct => &struct_refs,
+                Layer::BcfTyped => &bcf_refs,
+                _ => &SUBST_NAMES,
+            };
             for s in value_names {
                 for a in &apis {
                     names.push(format!("{s}/{}", api_name(*a)));
@@ -354,7 +361,7 @@ fn run_case(ctx: &Ctx, w: &World, idx: u64, c: &Case) -> CaseOut {
                 }
                 let bytes = cache.borrow().1.clone();
                 (
-                    which * nv + vi,
+                    (if *layer == Layer::BcfTyped { which % mutate::BCF_TYPES.len() } else { which }) * nv + vi,
                     read_api_probe(it.item.kind, apis[vi], bytes, &it.item.name),
                     format!("input = item {} at layer {}, {}", it.item.name, layer.name(), w.det_describe(*item, *layer, pos, which)),
                 )
